@@ -32,8 +32,14 @@ def run(ctx):
                 continue
             e2e.run_one(rep, P, 'Derivative', method, nn, order, gen)
             count += 1
+    # complex *valued* f with the real-step methods: real and imaginary parts are differentiated by the same stencil
+    for method in ('central', 'forward', 'backward'):
+        for nn, order in ((1, 2), (2, 2), (3, 4), (1, 4)) if ctx.tier == 'quick' else ((1, 2), (2, 2), (3, 4), (1, 4), (4, 2), (2, 6), (5, 2)):
+            e2e.run_one(rep, P, 'Derivative', method, nn, order, 'sym-min', complex_valued=True)
+            count += 1
     rep.notes['e2e_runs'] = count
     zero_order(ctx, P)
+    arrays(ctx)
     wynn(ctx)
     rep.notes['exhaustive'] = True
     from . import history
@@ -41,6 +47,20 @@ def run(ctx):
     history.run_cache_scenarios(rep, ctx.repo, 'Derivative', None)
     rep.notes['trusted_base'] = ['python ast', 'ndverif abstract interpreter and numpy summaries',
                                  'convolve1d model (DESIGN section 7)', 'generalised Vandermonde non-singularity']
+
+
+def arrays(ctx):
+    """Array arguments (the statement says scalars and arrays): the data-dependence run of C08 on a few configurations,
+    including a transposed (Fortran ordered) view, filed under this property."""
+    from . import c08
+    rep = ctx.rep
+    rep.rule('R-ARRAY', 'array x (C ordered and a transposed view): the result has the shape of x and element c is computed '
+             'from difference quotients and steps of element c only (abstract data-dependence run of Derivative.__call__, '
+             'shared with C08)', 6)
+    core = ctx.repo.module('core')
+    for shape in ((3,), 'T(3, 2)'):
+        for method, n, order in (('central', 1, 2), ('complex', 1, 2), ('forward', 2, 2)):
+            c08.one(ctx, core, shape, method, n, order, False, rule_as='R-ARRAY')
 
 
 def zero_order(ctx, P):
